@@ -35,6 +35,10 @@ def run(ctx):
     ctx.rule('C11.f-round-starts-clean', 'every round starts with an empty received bitmap and zero counters (implicit and explicit reset), so that which shards count as given depends on this round only (clause shared with C05.a/b)')
     ctx.guard('C11.analysable', ctx.shared, {'X.full': 'C11.f-round-starts-clean', 'X.recv': 'C11.f-round-starts-clean', 'X.drop': 'C11.f-round-starts-clean'},
               resetrules.check_reset_discipline, ctx, ctx.facts(cfgs[0]), cfgs[0], 'X.drop', 'X.recv', 'X.full')
+    ctx.rule('C11.i-final-transform-covers-revealed', 'the last FFT of a decoder is asked for at least the positions that are read back afterwards (the revealed originals may sit anywhere in their range, whichever shards were given): reveal range within [pos, pos + truncated_size), by linear arithmetic with x <= next_power_of_two(x)')
+    ctx.rule('C11.h-sufficiency-on-counts', 'whether the shards given suffice is judged by original_received + recovery_received < original_count on the round\'s counters (a superset of a sufficient set is sufficient), and each error of the add/decode path is governed by its documented condition (clause shared with C06.b)')
+    from . import c06
+    ctx.guard('C11.analysable', ctx.shared, {'C06.b-truthful': 'C11.h-sufficiency-on-counts'}, c06.check_truthful, ctx, ctx.facts(cfgs[0]), cfgs[0])
     ctx.rule('C11.g-one-locator-evaluation', 'the erasure locator every decoder derives from the bitmap is evaluated by the one shared eval_poly, whatever engine is used (clause shared with C03.d)')
     from . import c03
     ctx.guard('C11.analysable', ctx.shared, {'C03.d-one-eval-poly': 'C11.g-one-locator-evaluation'}, c03.eval_poly, ctx, ctx.facts(cfgs[0]), cfgs[0])
@@ -45,6 +49,7 @@ def run(ctx):
         ctx.guard('C11.analysable', c12.accessors, ctx, facts, cfg)
         ctx.guard('C11.analysable', shortcut, ctx, facts, cfg)
         ctx.guard('C11.analysable', placement, ctx, facts, cfg)
+        ctx.guard('C11.analysable', final_transform_covers, ctx, facts, cfg)
 
 
 def add_effects(ctx, facts, cfg):
@@ -390,3 +395,81 @@ def sym(c):
 
 def local_to_sym(c):
     return c
+
+
+def _nonneg(c):
+    """is the canonical integer expression provably >= 0, for unsigned atoms, using npo2(x) >= x ?
+    c is put in linear form; per atom x: coefficient a on x and b on next_power_of_two(x) need b >= 0 and a + b >= 0"""
+    const, terms = c05.lin(c)
+    if const < 0:
+        return False
+    coef = {}
+    for trepr, k in terms:
+        coef[trepr] = k
+    done = set()
+    for trepr, k in terms:
+        m = re.match(r"^\('call', '[^']*next_power_of_two', \((.*),\)\)$", trepr)
+        if m:
+            inner = m.group(1)
+            a = coef.get(inner, 0)
+            if k < 0 or a + k < 0:
+                return False
+            done.add(trepr)
+            done.add(inner)
+    for trepr, k in terms:
+        if trepr in done:
+            continue
+        if k < 0:
+            return False
+    return True
+
+
+def final_transform_covers(ctx, facts, cfg):
+    R = 'C11.i-final-transform-covers-revealed'
+    n = 0
+    for p, fn in sorted(facts.fns.items()):
+        if not (fn.impl_trait == 'rate::RateDecoder' and fn.name == 'decode' and not (fn.impl_self_adt or '').startswith('rate::rate_default')):
+            continue
+        ev = c05.Events(fn)
+        ffts = [e for e in ev.events if e['kind'] == 'call' and e['node'].get('k') == 'mcall' and e['node'].get('name') == 'fft'
+                and (e['node'].get('trait') or '').endswith('Engine') and len(e['node'].get('args', [])) == 5]
+        if not ffts:
+            ctx.violation(R, 'no-fft', '%s has no final Engine::fft call this rule can see' % p, site=fn.span, fn=p, cfg=cfg)
+            continue
+        last = max(ffts, key=lambda e: e['order'])
+        a = last['node']['args']
+        data = hcanon(a[0], last['env'])
+        pos, trunc = hcanon(a[1], last['env']), hcanon(a[3], last['env'])
+        reveals = []
+        for e in ev.events:
+            if e['kind'] != 'for' or e['order'] < last['order']:
+                continue
+            cl = core.counted_loop(e['iter'], e['pat'])
+            if cl is None:
+                continue
+            ivar = cl[0]
+            # the loop body reads / multiplies work[i]
+            def root(c):
+                while isinstance(c, tuple) and c and c[0] in ('ref', 'deref', 'field', 'index'):
+                    c = c[1]
+                return c
+            uses = core.hir_find(e['body'], lambda m: m.get('k') == 'index' and hcanon(m['idx']) == ('local', ivar) and root(hcanon(m['base'], e['env'])) == root(data))
+            if not uses:
+                continue
+            lo = hcanon(cl[1], e['env']) if cl[1] is not None else ('const', 0)
+            hi = hcanon(cl[2], e['env'])
+            reveals.append((lo, hi, e['node'].get('line')))
+        if not reveals:
+            ctx.violation(R, 'no-reveal', '%s has no loop over positions after its final FFT' % p, site=fn.span, fn=p, cfg=cfg)
+            continue
+        for lo, hi, line in reveals:
+            n += 1
+            end = ('bin', 'Add', pos, trunc)
+            ok_lo = _nonneg(('bin', 'Sub', lo, pos))
+            ok_hi = _nonneg(('bin', 'Sub', end, hi))
+            if ok_lo and ok_hi:
+                ctx.ok(R, '%s:%s@%s' % (p, (line or '').split(':')[-1], cfg), {'revealed': '%s..%s' % (hshow(lo), hshow(hi)), 'fft_output': '%s..%s' % (hshow(pos), hshow(end))})
+            else:
+                ctx.violation(R, 'uncovered', '%s reads back positions %s..%s after a final FFT that was asked for positions %s..%s only: %s cannot be shown (restored shards in the uncovered part would be garbage, depending on which shards were given)'
+                              % (p, hshow(lo), hshow(hi), hshow(pos), hshow(end), 'start >= pos' if not ok_lo else 'end <= pos + truncated_size'), site=line, fn=p, cfg=cfg)
+    ctx.floor(R, 2, n, 'reveal loops after the final FFT', cfg=cfg)
